@@ -25,8 +25,12 @@ triple-quoted literal (the escape sequences `quote_docstring` writes, and a few 
 too is compared on every generated text (`ast.literal_eval` of the quoted text).
 
 State of /repo described: 35c2f08 (`replace_docstring` replaces the whole docstring
-expression and separates the literal from a one-line body by `"; "`) and 2b72506
-(`quote_docstring`).
+expression and separates the literal from a one-line body by `"; "`), 2b72506
+(`quote_docstring`), 067a1c5 (`remove_decorator` / `replace_funcname` cut the source with
+`_source_lines`, i.e. at `\r\n`, `\r`, `\n` only – the lines of the grammar hold none of the other
+characters at which `str.splitlines` splits, so the two cuts coincide on every text of the model) and
+9feb00a (the end of the docstring / lambda is taken from the token's start and text, not from
+`last_token.endpos`; the model never used the misreported column).
 -/
 namespace MxModel.Capture
 
